@@ -147,6 +147,12 @@ class NestedParent(WrappingQuery):
         def is_active(self):
             return self._nextdoc is not None
 
+        def copy(self):
+            m = object.__new__(self.__class__)
+            m.__dict__.update(self.__dict__)
+            m.child = self.child.copy()
+            return m
+
         def supports_block_quality(self):
             return False
 
@@ -186,7 +192,9 @@ class NestedParent(WrappingQuery):
 
         def reset(self):
             self.child.reset()
-            self._gather()
+            self._nextdoc = None
+            if self.child.is_active():
+                self._gather()
 
         def next(self):
             if self.child.is_active():
@@ -198,8 +206,21 @@ class NestedParent(WrappingQuery):
                     self._nextdoc = None
 
         def skip_to(self, id):
-            self.child.skip_to(id)
-            self._gather()
+            if self._nextdoc is None:
+                raise matching.ReadTooFar
+            if id <= self._nextdoc:
+                return
+
+            # Children that come before the first parent at or after the
+            # target belong to earlier parents
+            child = self.child
+            parent = self.comb.after(id - 1)
+            if parent is not None and child.is_active():
+                child.skip_to(parent)
+            if parent is not None and child.is_active():
+                self._gather()
+            else:
+                self._nextdoc = None
 
         def value(self):
             raise NotImplementedError(self.__class__)
@@ -294,6 +315,12 @@ class NestedChildren(WrappingQuery):
             return "%s(%r, %r)" % (self.__class__.__name__,
                                    self.parent_comb,
                                    self.child)
+
+        def copy(self):
+            m = object.__new__(self.__class__)
+            m.__dict__.update(self.__dict__)
+            m.child = self.child.copy()
+            return m
 
         def reset(self):
             self.child.reset()
@@ -395,7 +422,8 @@ class NestedChildren(WrappingQuery):
                 # Find the parent before the target ID
                 pid = comb.before(docid)
                 # Skip the parent matcher to that ID
-                wanted.skip_to(pid)
+                if pid is not None:
+                    wanted.skip_to(pid)
                 # If that made the matcher inactive, then we're done
                 if not wanted.is_active():
                     self._nextchild = self._nextparent = self.limit
@@ -403,6 +431,9 @@ class NestedChildren(WrappingQuery):
                     # Reestablish for the next child after the next matching
                     # parent
                     self._find_next_children()
+                    # The target may lie inside that parent's children
+                    while self.is_active() and self.id() < docid:
+                        self.next()
             else:
                 self._nextchild = self._nextparent = self.limit
 
